@@ -57,6 +57,7 @@ def builders():
         32: lambda z, u: [rso.pnorm(z, (3, 2)) <= 2],                               # the set of 29, rational degree: SOC tower
         33: lambda z, u: [rso.norm(z) <= 1.5, z.sum() == 1],                        # 2-ball and an equality (a chord)
         34: lambda z, u: [rso.exp(z[0]) <= z[1], z[0] + z[1] == 1, z[0] >= -1],     # exp piece and an equality: segment (-1,2)-(0,1) EXACTLY
+        39: lambda z, u: [rso.norm(z[0:1]) <= 1, rso.norm(z) <= 1.6],                 # TWO second-order cones of different dimension (2 and 3)
         35: lambda z, u: [rso.gmean(z) >= 1, z <= 2],                               # hyperbola region z1 z2 >= 1
         36: lambda z, u: [rso.norm(z - np.array([1., 0.])) <= 1],                   # shifted ball (exact in TLC)
     }
@@ -177,17 +178,18 @@ F = {
     35: [lambda a, b: -a, lambda a, b: -b, lambda a, b: 1.0 - np.sqrt(np.maximum(a, 0.0) * np.maximum(b, 0.0)),
          lambda a, b: a - 2.0, lambda a, b: b - 2.0],
     36: [lambda a, b: (a - 1.0) ** 2 + b * b - 1.0],
+    39: [lambda a, b: np.abs(a) - 1.0, lambda a, b: a * a + b * b - 2.56],
 }
 ON_LINE = {23, 25, 33}                       # sets inside the line z1 + z2 = 1 (segments)
 CENTRE = {13: (0, 0), 14: (0, 0), 20: (0, 0), 21: (0, 0), 22: (0, 0), 23: (.5, .5), 24: (-.3, 1.4), 25: (.5, .5),
           26: (0, 0), 27: (0, 1), 28: (0, 0), 29: (0, 0), 30: (-.5, 1.3), 31: (-.3, 1.4), 32: (0, 0), 33: (.5, .5),
-          35: (1.5, 1.5), 36: (1, 0)}     # a point well inside each set (relative interior for segments)
+          35: (1.5, 1.5), 36: (1, 0), 39: (0, 0)}     # a point well inside each set (relative interior for segments)
 
-SAND = {20, 21, 22, 23, 24, 25, 26, 27, 29, 30, 31, 32, 33, 35}   # kind "sand" in RoSem.tla (RoSets.tla literals)
+SAND = {20, 21, 22, 23, 24, 25, 26, 27, 29, 30, 31, 32, 33, 35, 39}   # kind "sand" in RoSem.tla (RoSets.tla literals)
 EXACT_QUADRICS = {13, 14, 28, 36}            # kind "ball": decided exactly by TLC in squares
 NEW_SETS = sorted(SAND | {28, 34, 36})
 NEEDS_EXP = {23, 24, 25, 26, 29, 30, 31, 34}  # exponential cones: ECOS only, continuous decisions only
-NEEDS_SOC = {13, 14, 15, 20, 21, 22, 27, 28, 32, 33, 35, 36}   # second-order cones: ECOS or Gurobi
+NEEDS_SOC = {13, 14, 15, 20, 21, 22, 27, 28, 32, 33, 35, 36, 39}   # second-order cones: ECOS or Gurobi
 IPCONE_POW2 = {27, 35}                       # integer power cone, degrees summing to a power of two (see replay_rosem.build)
 DENSE_SETS = SAND | EXACT_QUADRICS           # sets whose float oracle uses dense(s)
 ZD = 1000                                    # scale of the integer polygons of RoSets.tla
